@@ -65,3 +65,32 @@ Definition spread_init : sstate :=
 Definition spread2d : list Z * list Z * list Z :=
   let st := sloop (10 * sz + 10) spread_init in (s_out st, s_src st, s_dst st).
 End Spread.
+
+(* ---------- regions.region_dissolve ---------- *)
+Fixpoint memz (x : Z) (l : list Z) : bool := match l with [] => false | y :: t => (x =? y) || memz x t end.
+Fixpoint index_of (x : Z) (l : list Z) : option nat :=
+  match l with [] => None | y :: t => if x =? y then Some O else match index_of x t with Some k => Some (S k) | None => None end end.
+
+(* ndimage.minimum_position(dst, regions, label): a cell of the region with the smallest distance (the first one in
+   row-major order; scipy's choice among equally distant cells is unspecified) *)
+Definition argmin_region (regs dst : list Z) (lab : Z) : nat :=
+  match fold_left (fun (best : option nat) i =>
+                     if nth i regs 0 =? lab then
+                       match best with
+                       | None => Some i
+                       | Some b => if nth i dst 0 <? nth b dst 0 then Some i else best
+                       end
+                     else best) (seq 0 (length regs)) None with
+  | Some b => b | None => 0%nat end.
+
+Definition dissolve_relabel (regs labels labels1 : list Z) : list Z :=
+  map (fun x => match index_of x labels with Some k => nth k labels1 x | None => x end) regs.
+
+(* pos = Some l: the caller's locations (idxs=...), labels are read there; pos = None: labels given, locations by
+   smallest distance *)
+Definition region_dissolve (nrow ncol : nat) (regs : list Z) (labels : list Z) (pos : option (list nat)) (dx dy hyp : Z) : list Z :=
+  let labels := match pos with Some l => map (fun i => nth i regs 0) l | None => labels end in
+  let regs0 := map (fun v => if memz v labels then 0 else v) regs in
+  let '(out, _, dst) := spread2d nrow ncol regs0 None 0 None dx dy hyp in
+  let idxs := match pos with Some l => l | None => map (argmin_region regs dst) labels end in
+  dissolve_relabel regs labels (map (fun i => nth i out 0) idxs).
